@@ -61,7 +61,9 @@ func (isn *InlineSchemaNamer) Name(key string, schema *spec.Schema, aschema *Ana
 				isn.opts.flattenContext.warnings = append(isn.opts.flattenContext.warnings, r.Warnings...)
 			}
 
-			if r.Ref.String() != key && (r.Ref.String() != path.Join(definitionsPath, newName) || path.Dir(v.String()) == definitionsPath) {
+			// NOTE: compare rendered $ref's (a name kept as is may need URL escaping)
+			newRef := spec.MustCreateRef(path.Join(definitionsPath, newName))
+			if r.Ref.String() != key && (r.Ref.String() != newRef.String() || path.Dir(v.String()) == definitionsPath) {
 				continue
 			}
 
